@@ -29,6 +29,9 @@ FLOORS = {'quick': {'conclusive': 60, 'distinct_nontrivial': 30,
 CASE_TIMEOUT = {'quick': 120, 'thorough': 300}
 
 
+# appended to RULE in the evidence (vlib/runner.py)
+RULE_ADDENDUM = 'Added in round 5: a bridge pipe replaced by a CLOSED TCV/PRV/FCV that a time control or rule on its setting brings back (30 % of the cases).'
+
 def n_cases(tier):
     return 200 if tier == 'quick' else 3000
 
